@@ -408,6 +408,27 @@ func c15Check(x *core.Ctx, c *core.Case) {
 				}
 			}
 		}
+		coercedObjects := map[string]bool{}
+		var noteObjects func(v interface{})
+		noteObjects = func(v interface{}) {
+			switch t := v.(type) {
+			case map[string]interface{}:
+				coercedObjects[fmt.Sprintf("%p", t)] = true
+				for _, e := range t {
+					noteObjects(e)
+				}
+			case []interface{}:
+				if len(t) > 0 {
+					coercedObjects[fmt.Sprintf("%p", t)] = true
+				}
+				for _, e := range t {
+					noteObjects(e)
+				}
+			}
+		}
+		for _, v := range coerced {
+			noteObjects(v)
+		}
 		// a panic is named after its context: the recorded finding is only about custom-scalar positions
 		setPanicContext := func(args []model.Arg, defs []*model.ArgDef) {
 			custom := false
@@ -463,6 +484,19 @@ func c15Check(x *core.Ctx, c *core.Case) {
 			}
 		}
 		cmp := func(where string, got map[string]interface{}, args []model.Arg, defs []*model.ArgDef) {
+			// the map belongs to the caller: once compared it is scribbled over (as a resolver normalising its arguments
+			// would); the second resolution of the same node must give the specified values again
+			defer func() {
+				for k, v := range got {
+					if _, isVar := coercedObjects[fmt.Sprintf("%p", v)]; !isVar {
+						mutateInPlace(v)
+					}
+					_ = k
+				}
+				if got != nil {
+					got["scribbledByCaller"] = 1
+				}
+			}()
 			want := e.argMap(args, defs)
 			x.Count("argument_maps_checked")
 			if len(want) > 0 {
@@ -515,6 +549,9 @@ func c15Check(x *core.Ctx, c *core.Case) {
 					continue
 				}
 				cmp(where+" @"+d.Name, got, mds[i].Args, def.Args)
+				if !x.Guard(func() { got = d.ArgumentMap(coerced) }) {
+					cmp(where+" @"+d.Name+" (second resolution)", got, mds[i].Args, def.Args)
+				}
 			}
 		}
 		visited := map[string]bool{}
@@ -548,6 +585,9 @@ func c15Check(x *core.Ctx, c *core.Case) {
 					setPanicContext(msel.Args, fd.Args)
 					if !x.Guard(func() { got = s.ArgumentMap(coerced) }) {
 						cmp(where+"/"+s.Name, got, msel.Args, fd.Args)
+						if !x.Guard(func() { got = s.ArgumentMap(coerced) }) {
+							cmp(where+"/"+s.Name+" (second resolution)", got, msel.Args, fd.Args)
+						}
 					}
 					sels(mg.Types[fd.Type.Base()], s.SelectionSet, msel.Sel, where+"/"+s.Name)
 				case *ast.InlineFragment:
